@@ -12,6 +12,34 @@ import gen_expr as G
 
 INTMIN, INTMAX = '(CONSTANT -32768)', '(CONSTANT 32767)'
 
+# ------------------------------------------------------------------ unusual but valid identifiers
+# the lexer (alpha [a-zA-Z_], idchr [a-zA-Z0-9_$#]) and the XML reader's symbol() define an identifier; anything of that shape that is not a
+# keyword may name a variable, type, function, parameter, template, location or process.
+NAMES_ANY = ['_', '__', '_1', '_a', '_idle', '_Worker', '_x_', 'a_', 'a1_2', 'a$', 'b#1', 'c$#', 'Int', 'Clock', 'INIT', 'System', 'True', 'Process',
+             'aA', 'Z9', 'l', 'O0', 'x1y2z3_a_rather_long_identifier_with_many_characters_0123456789']
+NAMES_VARIABLE_ONLY = ['A', 'U', 'W', 'R', 'E', 'M', 'sup', 'inf', 'bounds', 'simulation']   # soft keywords: valid as variable names
+VARIABLE_PREFIXES = set('vKrbxdasc')
+
+
+def harvested_names():
+    """identifier-shaped string literals that the sources of the tree under test compare something with (name == "Err"): a model may use them as names"""
+    import glob
+    import os
+    src = os.environ.get('UTAP_SRC', '/repo')
+    try:
+        kw = set(re.findall(r'\{"([A-Za-z_0-9]+)"', open(src + '/src/keywords.cpp').read()))
+    except OSError:
+        return []
+    words = set()
+    for f in sorted(glob.glob(src + '/src/*.cpp') + glob.glob(src + '/src/*.h*') + glob.glob(src + '/include/utap/*.h')):
+        text = open(f, errors='replace').read()
+        for mo in re.finditer(r'(?:==|!=)\s*"([A-Za-z_][A-Za-z0-9_]*)"|"([A-Za-z_][A-Za-z0-9_]*)"\s*(?:==|!=)|str(?:n)?cmp\([^;]*?"([A-Za-z_][A-Za-z0-9_]*)"', text):
+            words.add(mo.group(1) or mo.group(2) or mo.group(3))
+    return sorted(w for w in words - kw if len(w) > 1 and not re.fullmatch(r'_id\d+', w))
+
+
+NAMES_HARVESTED = harvested_names()
+
 
 # ------------------------------------------------------------------ abstract types -> expected type summary
 def T_int():
@@ -182,6 +210,7 @@ class Model:
         self.genv = Env()
         self.queries = []
         self.noise = {}
+        self.special_names = []   # unusual identifiers the generator used (evidence class)
 
     # ---------------------------------------------------------------- XML
     def xml(self, noise=None):
@@ -618,8 +647,18 @@ def models(draw, max_templates=3, sizes='normal', for_xta=False, need_clean=Fals
     g = m.genv
     cnt = [0]
 
+    special = draw(st.integers(0, 3)) == 0      # a quarter of the models use unusual identifiers where they can
+    used = set()
+
     def fresh(prefix):
         cnt[0] += 1
+        if special and draw(st.integers(0, 2)) == 0:
+            pool = NAMES_ANY + NAMES_HARVESTED + (NAMES_VARIABLE_ONLY if prefix in VARIABLE_PREFIXES else [])
+            n = pool[draw(st.integers(0, len(pool) - 1))]
+            if n not in used:
+                used.add(n)
+                m.special_names.append(n)
+                return n
         return '%s%d' % (prefix, cnt[0])
 
     # ---- global declarations
